@@ -555,8 +555,9 @@ func c09Pairs() (fields []layoutField, err error) {
 
 func init() {
 	p := &core.Property{
-		ID:   "C09",
-		Rule: "every getter/setter pair listed in the frozen layout table (and every pair vgen finds in the tree) × prior states {all-0, all-1, random…} × every value of the parameter type for uint8 fields and (thorough) uint16 fields, random values for array/slice fields; Buffer-backed elements sized to their declared extent + {0,1,7}. The full post-state (Iei, Len, every data octet) is compared with the prediction from the documented Row/sBit/len. Non-trivial = prior state not all-zero; distinct by (pair, prior seed, value range).",
+		ID:         "C09",
+		Interleave: []string{"field", "dnn"},
+		Rule:       "every getter/setter pair listed in the frozen layout table (and every pair vgen finds in the tree) × prior states {all-0, all-1, random…} × every value of the parameter type for uint8 fields and (thorough) uint16 fields, random values for array/slice fields; Buffer-backed elements sized to their declared extent + {0,1,7}. The full post-state (Iei, Len, every data octet) is compared with the prediction from the documented Row/sBit/len. Non-trivial = prior state not all-zero; distinct by (pair, prior seed, value range).",
 		Assumptions: []string{
 			"spec/layout.json: documented Row,sBit,len frozen from the pinned tree at authoring time; open-ended fields mean 'octets from Row[0] to the end'",
 			"SetLen of a Buffer-backed element is the documented allocator (Len=n, len(Buffer)=n, contents unspecified)",
